@@ -241,7 +241,13 @@ def run_gae(case):
                     ilog.append([4] if x.shape == (mdim + 1,) and not np.any(x) else [4, "not zeros(%d)" % (mdim + 1)])
                 elif en[0] == "ranker_reset":
                     ilog.append([5])
-            th_after = frl(np.asarray(em.ask_dqd())[0])
+            insts = script.get("grad_instances") or []
+            if insts and k % 2 == 1:
+                # the solution point is read from the gradient optimizer the harness itself supplied (its public .theta), NOT through the
+                # emitter: a probing ask_dqd() between tell and the next ask could refresh state the emitter keeps about its solution point
+                th_after = frl(np.array(insts[-1].theta, copy=True))
+            else:
+                th_after = frl(np.asarray(em.ask_dqd())[0])
             solsq = frl(sols)
             np_ = expected_parents(case, status)
             wts = [fr(w) for w in recomb_weights(np_)]
